@@ -244,30 +244,72 @@ func (e *Eng) lookupNamed(pkg, name string) types.Type {
 }
 
 // ---- channels (token / message invariants) ----
+// A channel is shared with other threads: its length is never known. What a thread does know is what it
+// did itself: ghost $tok[ch] counts (sends by this thread) - (receives by this thread). For a semaphore
+// channel this is "permits held by this thread"; the global bound sum(tokens) = len(ch) <= cap(ch) is Go's
+// channel semantics (trusted). Messages are kept in a per-channel slot only for the thread's own last send.
 
 func (a *Activation) chanArrays() {
 	t := a.t
 	t.regArray("$chancap", "(Array Int Int)")
-	t.regArray("$chanlen", "(Array Int Int)")
 	t.regArray("$chanclosed", "(Array Int Bool)")
-	t.regArray("$istimer", "(Array Int Bool)")
+	t.regArray("$tok", "(Array Int Int)")
+	t.regArray("$sends", "(Array Int Int)")
+	t.regArray("$timerfired", "(Array Int Bool)")
 }
 
-// send on a channel outside select: blocks until there is room; we model the successful send.
-func (a *Activation) send(in *ssa.Send, st *State) *State {
+func (a *Activation) tokAdd(st *State, ch string, cond string, delta int) {
 	t := a.t
+	cur := t.lookup(st, "$tok")
+	upd := sApp("store", cur, ch, "(+ "+sApp("select", cur, ch)+" "+sInt(int64(delta))+")")
+	c := t.fresh("$tok@u", "(Array Int Int)")
+	t.asserts = append(t.asserts, sImp(st.pc, sEq(c, sIte(cond, upd, cur))))
+	t.set(st, "$tok", c)
+	if delta > 0 {
+		cs := t.lookup(st, "$sends")
+		us := sApp("store", cs, ch, "(+ "+sApp("select", cs, ch)+" 1)")
+		c2 := t.fresh("$sends@u", "(Array Int Int)")
+		t.asserts = append(t.asserts, sImp(st.pc, sEq(c2, sIte(cond, us, cs))))
+		t.set(st, "$sends", c2)
+	}
+}
+
+// send outside select: blocks until there is room; on return the message is in the channel.
+func (a *Activation) send(in *ssa.Send, st *State) *State {
 	a.chanArrays()
+	a.t.assumed["channel semantics: capacity bound, FIFO, a send returns only after the message is buffered or received"] = true
 	ch := a.val(in.Chan, st)
 	x := a.val(in.X, st)
 	a.escape(st, x)
-	l := sApp("select", t.lookup(st, "$chanlen"), ch.S)
-	c := sApp("select", t.lookup(st, "$chancap"), ch.S)
-	// a blocking send that can never complete is a liveness matter; the safety obligation is "there is room"
-	a.obligeSafetyLabeled(st, "chan", "send does not block", "(< "+l+" "+c+")", in.Pos(), "C09.send_never_blocks")
-	t.set(st, "$chanlen", sApp("store", t.lookup(st, "$chanlen"), ch.S, "(+ "+l+" 1)"))
+	a.sendSites(st, ch, x, in.Pos())
+	a.tokAdd(st, ch.S, tTrue, 1)
 	a.chanPut(st, ch, x)
 	a.ghostEvent(st, "send", ch.S)
 	return st
+}
+
+// sendSites: obligations attached to a blocking send by the contract ("sendinv" clauses: the message invariant
+// and the condition under which the send cannot block).
+func (a *Activation) sendSites(st *State, ch Val, x Val, pos token.Pos) {
+	con := a.rootContract()
+	if con == nil {
+		return
+	}
+	t := a.t
+	for i, c := range con.Clauses {
+		if c.Kind != "sendinv" {
+			continue
+		}
+		env := a.rootAct().exprEnv(st, map[string]Val{"msg": x, "ch": ch})
+		for k, v := range a.params {
+			env.vars[k] = v
+		}
+		v := env.evalBool(c.Expr, c.Src)
+		a.arith["sendinv"]++
+		name := fmt.Sprintf("%s#sendinv[%s:%d]", fullName(a.fn), labelOr(c.Label, i), a.arith["sendinv"])
+		o := t.oblige("sendinv", name, c.Label, st.pc, v, posStr(t.eng.fset, pos), c.Expr)
+		o.Fn = fullName(a.fn)
+	}
 }
 
 func (a *Activation) obligeSafetyLabeled(st *State, kind, what, goal string, pos token.Pos, label string) {
@@ -279,8 +321,6 @@ func (a *Activation) obligeSafetyLabeled(st *State, kind, what, goal string, pos
 	t.assume(st.pc, goal)
 }
 
-// chanPut/chanGet: the single-slot message store of a channel (enough for capacity-1 hand-offs); for
-// struct{} token channels nothing is stored.
 func (a *Activation) chanPut(st *State, ch Val, x Val) {
 	t := a.t
 	var flat []Val
@@ -292,24 +332,36 @@ func (a *Activation) chanPut(st *State, ch Val, x Val) {
 	}
 }
 
-func (a *Activation) chanGet(st *State, ch Val, T types.Type, local bool) Val {
+// chanGet: a received message is whatever some thread sent: unconstrained, except for the 'recvinv' clauses
+// of the contract (message invariant, proved at every send site of the module).
+func (a *Activation) chanGet(st *State, ch Val, T types.Type) Val {
 	t := a.t
-	j := 0
-	return t.buildFromScalars(T, func(k Kind, LT types.Type) string {
-		var term string
-		if local {
-			name := fmt.Sprintf("$chanmsg%d%s", j, sortSig(k))
-			t.regArray(name, "(Array Int "+sortOfKind(k)+")")
-			term = sApp("select", t.lookup(st, name), ch.S)
-		} else {
-			term = t.fresh("recv", sortOfKind(k))
-			if k == KInt {
-				t.assume(st.pc, inRangeTerm(term, LT))
-			}
+	v := t.buildFromScalars(T, func(k Kind, LT types.Type) string {
+		term := t.fresh("recv", sortOfKind(k))
+		if k == KInt {
+			t.assume(st.pc, inRangeTerm(term, LT))
 		}
-		j++
 		return term
 	})
+	return v
+}
+
+func (a *Activation) recvInv(st *State, ch Val, v Val, cond string) {
+	con := a.rootContract()
+	if con == nil {
+		return
+	}
+	for _, c := range con.Clauses {
+		if c.Kind != "recvinv" {
+			continue
+		}
+		env := a.rootAct().exprEnv(st, map[string]Val{"msg": v, "ch": ch})
+		for k, pv := range a.params {
+			env.vars[k] = pv
+		}
+		a.t.assume(st.pc, sImp(cond, env.evalBool(c.Expr, c.Src)))
+		a.t.assumed["message invariant of a channel assumed at receive (proved at the send site): "+c.Expr] = true
+	}
 }
 
 // recv outside select (blocking receive).
@@ -318,12 +370,11 @@ func (a *Activation) recv(in *ssa.UnOp, st *State) *State {
 	a.chanArrays()
 	ch := a.val(in.X, st)
 	ET := in.X.Type().Underlying().(*types.Chan).Elem()
-	l := sApp("select", t.lookup(st, "$chanlen"), ch.S)
-	// the receive completes when a message is available or the channel is closed; messages may have been
-	// put there by other threads: the value is unconstrained unless a chaninv is declared.
-	v := a.chanGet(st, ch, ET, false)
-	a.applyChanInv(st, ch, v)
-	t.set(st, "$chanlen", sApp("store", t.lookup(st, "$chanlen"), ch.S, sIte("(> "+l+" 0)", "(- "+l+" 1)", "0")))
+	v := a.chanGet(st, ch, ET)
+	a.recvInv(st, ch, v, tTrue)
+	if !recvOnly(in.X.Type()) {
+		a.tokAdd(st, ch.S, tTrue, -1)
+	}
 	a.ghostEvent(st, "recv", ch.S)
 	if in.CommaOk {
 		ok := t.fresh("recvok", "Bool")
@@ -334,25 +385,11 @@ func (a *Activation) recv(in *ssa.UnOp, st *State) *State {
 	return st
 }
 
-// applyChanInv: assume the declared message invariant for a received message.
-func (a *Activation) applyChanInv(st *State, ch Val, v Val) {
-	con := a.rootContract()
-	if con == nil {
-		return
-	}
-	for _, c := range con.Clauses {
-		if c.Kind != "assume" || !strings.HasPrefix(c.Expr, "chanmsg ") {
-			continue
-		}
-	}
-}
-
-// selectStmt: every ready case is a possible continuation.
+// selectStmt: every case may be the one that fires (which ones are ready depends on other threads).
 func (a *Activation) selectStmt(in *ssa.Select, st *State) *State {
 	t := a.t
 	a.chanArrays()
 	t.assumed["select chooses any ready case; no fairness is assumed"] = true
-	// result tuple: (index int, recvOk bool, r_0 T_0, ... ) for the receive states
 	n := len(in.States)
 	idx := t.fresh("sel", "Int")
 	lo := 0
@@ -362,44 +399,24 @@ func (a *Activation) selectStmt(in *ssa.Select, st *State) *State {
 	t.assume(st.pc, sAnd(fmt.Sprintf("(<= %s %s)", sInt(int64(lo)), idx), fmt.Sprintf("(< %s %d)", idx, n)))
 	t.modelSyms = append(t.modelSyms, idx)
 	fields := []Val{{K: KInt, S: idx, T: types.Typ[types.Int]}, {K: KBool, S: t.fresh("selok", "Bool"), T: types.Typ[types.Bool]}}
-	lenArr := t.lookup(st, "$chanlen")
-	capArr := t.lookup(st, "$chancap")
-	newLen := lenArr
 	for i, s := range in.States {
 		ch := a.val(s.Chan, st)
 		chosen := fmt.Sprintf("(= %s %d)", idx, i)
-		l := sApp("select", lenArr, ch.S)
 		if s.Dir == types.SendOnly {
 			x := a.val(s.Send, st)
 			a.escape(st, x)
-			// a send case can only be chosen when there is room
-			t.assume(st.pc, sImp(chosen, "(< "+l+" "+sApp("select", capArr, ch.S)+")"))
-			newLen = sIte(chosen, sApp("store", lenArr, ch.S, "(+ "+l+" 1)"), newLen)
-			// !Blocking: default is chosen only if no send is possible -- not needed for safety
+			a.tokAdd(st, ch.S, chosen, 1)
 		} else {
 			ET := s.Chan.Type().Underlying().(*types.Chan).Elem()
-			v := a.chanGet(st, ch, ET, false)
+			v := a.chanGet(st, ch, ET)
+			a.recvInv(st, ch, v, chosen)
 			fields = append(fields, v)
-			// a receive case can only be chosen when a message is there or the channel is closed / fired
-			newLen = sIte(chosen, sApp("store", lenArr, ch.S, sIte("(> "+l+" 0)", "(- "+l+" 1)", "0")), newLen)
+			if !recvOnly(s.Chan.Type()) {
+				a.tokAdd(st, ch.S, chosen, -1)
+			}
 			a.timerFact(st, ch, chosen)
 		}
 	}
-	if !in.Blocking {
-		// default taken only when no case is ready: for send cases this means the channel is full
-		for i, s := range in.States {
-			_ = i
-			if s.Dir == types.SendOnly {
-				ch := a.val(s.Chan, st)
-				l := sApp("select", lenArr, ch.S)
-				t.assume(st.pc, sImp("(= "+idx+" (- 1))", "(>= "+l+" "+sApp("select", capArr, ch.S)+")"))
-			}
-		}
-	}
-	c := t.fresh("$chanlen@sel", "(Array Int Int)")
-	t.asserts = append(t.asserts, sImp(st.pc, sEq(c, newLen)))
-	t.set(st, "$chanlen", c)
-	// remember which select produced idx so contracts can talk about the chosen case
 	a.arith["select"]++
 	t.regArray("$g:sel", "(Array Int Int)")
 	t.set(st, "$g:sel", sApp("store", t.lookup(st, "$g:sel"), sInt(int64(a.arith["select"])), idx))
@@ -407,12 +424,17 @@ func (a *Activation) selectStmt(in *ssa.Select, st *State) *State {
 	return st
 }
 
-// timerFact: receiving from a timer channel implies the timer has fired: ghost fired(ch) := true.
+// timerFact: receiving from a channel marks it "fired" (used for timer channels: fired(ch) => the timer elapsed).
 func (a *Activation) timerFact(st *State, ch Val, chosen string) {
 	t := a.t
-	t.regArray("$timerfired", "(Array Int Bool)")
 	cur := t.lookup(st, "$timerfired")
 	c := t.fresh("$timerfired@sel", "(Array Int Bool)")
 	t.asserts = append(t.asserts, sImp(st.pc, sEq(c, sIte(chosen, sApp("store", cur, ch.S, tTrue), cur))))
 	t.set(st, "$timerfired", c)
+}
+
+// recvOnly: signal channels (<-chan T: ctx.Done(), timer.C) carry no tokens of the verified thread.
+func recvOnly(T types.Type) bool {
+	c, ok := T.Underlying().(*types.Chan)
+	return ok && c.Dir() == types.RecvOnly
 }
